@@ -39,6 +39,18 @@ func wellFormedRecord(r *rand.Rand) []byte {
 	if g.rt == 32 { // the block of a revisit is an http header; declare a truthful digest only
 		fields = fullFieldsOdd(r, g, false, false)
 	}
+	if r.Intn(25) == 0 && len(fields) > 2 {
+		// a header line that ends exactly where a 4096-byte read buffer of the gzip reader ends
+		k := 1 + r.Intn(len(fields)-1)
+		before := len("WARC/1.1\r\n")
+		for _, f := range fields[:k] {
+			before += len(f[0]) + 2 + len(f[1]) + 2
+		}
+		if n := 4096 - before - len("X-Pad: ") - 2; n > 0 {
+			pad := [2]string{"X-Pad", strings.Repeat("p", n)}
+			fields = append(fields[:k:k], append([][2]string{pad}, fields[k:]...)...)
+		}
+	}
 	return serializeRecord(pick(r, []string{"1.1", "1.0"}), fields, g.body, "\r\n")
 }
 
